@@ -6,7 +6,7 @@ import VM.Compose
     N <ret t|z> <usearg 0|1> <const 0|1> <flag j|-> <pred>*     node i; value ("n<i>", *args) or 0 (ret z)
     Q <k> <out>^k <m> <in>^m <value>^m                          holders: x = n (required), y = n+1 (default 7)
     E
-    -> <id> <q> OK <value>^k | MISSING | INPUTDEP | FAIL
+    -> <id> <q> OK <value>^k | MISSING | INPUTDEP | FAIL | OPEN (closure hypothesis of the C19 theorem fails)
 -/
 open VM VD TM
 
@@ -87,7 +87,10 @@ def main : IO Unit := do
             else
               let cc := composeCfg c ins outs vals
               let ρ := den cc
-              if cc.nodes.any (fun x => (outcome cc ρ x).isNone) then IO.println s!"{sid} {q} FAIL"
+              -- hypothesis of VM.C19_compose_computes_outputs, checked on this very table
+              if !isClosedB (withInputs c ins vals) (fun x => (needed c ins outs).contains x) then
+                IO.println s!"{sid} {q} OPEN"
+              else if cc.nodes.any (fun x => (outcome cc ρ x).isNone) then IO.println s!"{sid} {q} FAIL"
               else
                 let vs := outs.map fun o => match ρ o with | some v => v.render | none => "N"
                 IO.println s!"{sid} {q} OK {" ".intercalate vs}"
